@@ -40,6 +40,15 @@ def _st(ops, w, d, thr):
             res = st.add(key, n)
             cnt[key] = cnt.get(key, 0) + n
         last[key] = res
+        if step % 4 == 3:
+            # a call the sketch refuses (an amount that is not an integer) returns nothing: the table, like the
+            # bins, must be what it was
+            before = (dict(st.meets_threshold), bytes(st))
+            bad_call = core.call(st.remove if step % 8 == 3 else st.add, key, 2.5)
+            if bad_call[0] == "err" and (dict(st.meets_threshold), bytes(st)) != before:
+                return f"step {step}: a refused call ({'remove' if step % 8 == 3 else 'add'}({key!r}, 2.5) raised {bad_call[1]}) changed the table or the bins; threshold {thr}"
+            if bad_call[0] == "ok":
+                last[key] = bad_call[1]
         want = {k: v for k, v in last.items() if v >= thr}
         got = dict(st.meets_threshold)
         if got != want:
